@@ -63,7 +63,17 @@ Inductive ev :=
 | ERet (res val : Z)            (* return of an API call: code, value *)
 | ECb (kind data now : Z)       (* user callback ran: 0 timer / 1 job, user data, clock *)
 | EPoll (timeout now : Z)       (* fd_source->poll(ms_timeout) = epoll_wait(.., timeout) *)
-| ENote (code : Z).             (* assert failure / impossible state *)
+| ENote (code : Z)              (* assert failure / impossible state *)
+| EDecide (timeout now root tick job_todo : Z)
+| EFire (data prio add dur fire now : Z).
+                                (* ghost events (not observables, never printed).
+                                   ENote 2: qb_loop_timer_del was given a forged handle (one that resolves to a
+                                   slot whose check word is 0: never issued by timer_add with a non-zero random()).
+                                   EDecide: the timeout decision of a turn: value chosen, clock before the decision,
+                                   expire_time at the root of the heap (-1: heap empty), 1000 / hertz, job_todo.
+                                   EFire: a timer callback is about to run;
+                                   clock when the timer was added, duration asked, clock when timerlist_expire
+                                   moved it to the job list, clock now *)
 
 Record lp := mkLP { heap : tl; next_tid : Z; slots : list slot;
                     lv0 : level; lv1 : level; lv2 : level;
@@ -197,6 +207,7 @@ Definition timer_del (st : lp) (h : Z) : lp :=
   match timer_from_handle st h with
   | LErr e => emit st (ERet (- e) 0)
   | LOk i t =>
+    let st := if s_check t =? 0 then emit st (ENote 2) else st in      (* ghost: forged handle *)
     if s_state t =? LT_ENTRY_DELETED then emit st (ERet 0 0)
     else if negb (s_state t =? LT_ENTRY_ACTIVE) && negb (s_state t =? LT_ENTRY_JOBLIST) then emit st (ERet (- LT_EINVAL) 0)
     else
@@ -347,6 +358,7 @@ Definition dispatch (fx : fixes) (beh : behaviour) (st : lp) (it : item) : lp :=
       if negb (s_state t =? LT_ENTRY_JOBLIST) then set_err st       (* assert(timer->state == QB_POLL_ENTRY_JOBLIST) *)
       else
         let st := put_slot st i (with_check t 0) in
+        let st := emit st (EFire (s_data t) (s_prio t) (g_add t) (g_dur t) (g_fire t) (clk st)) in
         let st := emit st (ECb 0 (s_data t) (clk st)) in
         let st := fold_left (exec_cbop fx) (beh_of beh (s_data t)) st in
         match nth_slot st i with
@@ -412,7 +424,10 @@ Fixpoint run_turns (fx : fixes) (beh : behaviour) (dirs : list Z) (st : lp) (p_s
     let p_stop := if p_stop =? LT_LOOP_LOW then LT_LOOP_HIGH else p_stop - 1 in
     let (job_todo, st) := get_more_jobs st in
     let (timer_todo, st) := expire_timers st in
+    let now0 := clk st in
+    let root := match entry_get (heap st) 0 with Some r => t_exp r | None => -1 end in
     let (ms_timeout, st) := choose_timeout fx st remaining_todo timer_todo job_todo in
+    let st := emit st (EDecide ms_timeout now0 root (1000 / hz st) job_todo) in
     let st := emit st (EPoll ms_timeout (clk st)) in
     let st := advance st (if d <? 0 then (if ms_timeout <? 0 then 0 else ms_timeout * LT_NS_IN_MSEC) + (- d - 1) else d) in
     let st := match rest with [] => set_stop st true | _ => st end in
